@@ -29,20 +29,19 @@ func genC11(x *Ctx) *c11Scen {
 	sc := &c11Scen{}
 	sc.Router = []string{"curly", "jsr311"}[tp.G(2)]
 	sc.Filters = tp.G(2)
-	nSvc := tp.Range(2, 5)
 	perm := tp.Perm(len(c11Roots))
 	rid := 0
-	for i := 0; i < nSvc; i++ {
+	tp.Repeat(2, 5, 600, func(i int) {
 		sp := SvcSpec{ID: i, Root: c11Roots[perm[i]], Dynamic: true}
-		n := tp.Range(1, 4)
 		// distinct (method, path) pairs: the same path may carry several methods
 		pairs := tp.Perm(2 * len(c11Subs))
-		for k := 0; k < n; k++ {
+		tp.Repeat(1, 4, 550, func(k int) {
 			rid++
 			sp.Routes = append(sp.Routes, RouteSpec{ID: rid, Method: []string{"GET", "POST"}[pairs[k]%2], Path: c11Subs[pairs[k]/2]})
-		}
+		})
 		sc.Svcs = append(sc.Svcs, sp)
-	}
+	})
+	nSvc := len(sc.Svcs)
 	nPlain := tp.G(3)
 	pp := tp.Perm(len(c11Plain))
 	for i := 0; i < nPlain; i++ {
@@ -53,11 +52,10 @@ func genC11(x *Ctx) *c11Scen {
 		maxOps = 30
 		sc.EveryPrefix = true
 	}
-	n := tp.Range(1, maxOps)
 	member := map[int]bool{}
 	present := map[int]bool{}
 	handled := map[int]bool{}
-	for k := 0; k < n; k++ {
+	tp.Repeat(1, maxOps, 880, func(int) {
 		sid := tp.G(nSvc)
 		sp := sc.Svcs[sid]
 		switch tp.G(8) {
@@ -83,11 +81,11 @@ func genC11(x *Ctx) *c11Scen {
 			}
 		case 6, 7:
 			if len(sc.Plains) == 0 {
-				continue
+				return
 			}
 			p := sc.Plains[tp.G(len(sc.Plains))]
 			if handled[p.ID] {
-				continue
+				return
 			}
 			handled[p.ID] = true
 			kind := "handle"
@@ -96,7 +94,7 @@ func genC11(x *Ctx) *c11Scen {
 			}
 			sc.Ops = append(sc.Ops, AdminOp{Kind: kind, Plain: p.ID})
 		}
-	}
+	})
 	return sc
 }
 
